@@ -120,3 +120,37 @@ func pageDiffCorr(ctx *Ctx, n int) *Corr {
 	}
 	return c
 }
+
+// addPageInfoCases: PageNumberFinder.getPageInfoAndText (Model/PageInfo.lean) for every anchor of
+// the page; what net/url says about the resolved href is computed here.
+func addPageInfoCases(c *Corr, rep *Report, src string, page *nurl.URL, replay interface{}) {
+	d := parseDoc(src)
+	var as []*html.Node
+	findAll(d.Root, func(n *html.Node) bool { return n.Type == html.ElementNode && n.Data == "a" }, &as)
+	for _, n := range as {
+		num, u, _, ok := distiller.VerifPageInfoOf(n, page)
+		impl := "-"
+		if ok {
+			impl = fmt.Sprintf("%d %s", num, hx(u))
+		}
+		text := strings.TrimSpace(distiller.VerifInnerText(n))
+		resolved := distiller.VerifCreateAbsoluteURL(getAttr(n, "href"), page)
+		ru, err1 := nurl.ParseRequestURI(resolved)
+		same := err1 == nil && ru.Host == page.Host
+		cleaned := ""
+		pu, err2 := nurl.Parse(resolved)
+		if err2 == nil {
+			pu.Path = strings.TrimSuffix(pu.Path, "/")
+			pu.RawPath = pu.Path
+			pu.Fragment = ""
+			pu.RawFragment = ""
+			cleaned = pu.String()
+		}
+		c.add(hx(text)+" "+hx(resolved)+" "+b01(err1 == nil)+" "+b01(same)+" "+b01(err2 == nil)+" "+hx(cleaned), impl, replay)
+		if ok {
+			rep.hist("pageinfo:number-link")
+		} else {
+			rep.hist("pageinfo:none")
+		}
+	}
+}
